@@ -18,7 +18,8 @@ META = {
             "included), every rank count > 0, every value type and every history, that an update changes exactly the slot "
             "(owner i, local_index i) by one application, that each element ends as the fold of exactly the updates addressed to it, that this "
             "is independent of the execution order when the updates commute (all operator families of array.hpp on uint64_t are proved to), "
-            "that no trap or assertion is reachable on a legal index, and that for_all presents 0..len-1 once each with the stored value. "
+            "that no trap or assertion is reachable on a legal index, and that for_all presents 0..len-1 once each with the stored value; "
+            "resize_wf/resize_slots: an explicit resize leaves a well-formed array of the new length that keeps every rank's local prefix. "
             "The model is tied to array.ipp by running generated histories (commutative families from every rank at every block boundary; "
             "one non-commutative update per element between barriers; arbitrary sequences on one rank; copies) on the real code and "
             "comparing every rank's for_all output with the model's.",
@@ -31,6 +32,8 @@ RULE = ("generated: per communicator size R in 1..8 and length L (0, 1, R-1, R, 
         "a phase gives every touched element one commuting operator family (additive/multiplies/bit_and/bit_or/bit_xor/logical_and/logical_or) "
         "or a single set/visit, issues the updates from all ranks at the boundary indices of every block plus random ones, then barrier + for_all; "
         "R=1 additionally runs arbitrary non-commutative sequences; some cases copy the array and update original and copy separately; "
+        "explicit resize(new_len[, fill]) (new remainder len % R, len < R, shrinking, growing) is followed IMMEDIATELY, without a barrier, by "
+        "updates from other ranks to every block of the new layout (kind=resize: 3-6 such steps, capacity 0, racer/late/burst schedules); "
         "a case = (R, L, layout, routing, buffer, schedule seed, script); non-trivial = at least one update")
 
 M64 = (1 << 64) - 1
@@ -71,29 +74,50 @@ def rand_val(rng):
     return rng.randrange(0, 1 << 64)
 
 
+def py_blocks(L, R):
+    """block sizes / starts of a length-L array on R ranks as the property states them (C10): used to aim the generator at
+    block boundaries and by the oracle to follow what resize keeps (each rank's local prefix)"""
+    sizes = [L // R + (1 if r < L % R else 0) for r in range(R)]
+    starts = [sum(sizes[:r]) for r in range(R)]
+    return starts, sizes
+
+
 def gen_case(rng, R, L, blocks, kind):
-    """blocks = (starts, sizes) of the partition (from the proved Part model, used only to aim at boundaries)"""
-    starts, sizes = blocks
-    boundary = sorted({i for s, z in zip(starts, sizes) if z > 0 for i in (s, s + z - 1)} | ({0, L - 1} if L else set()))
+    """blocks: unused (kept for the call signature); boundaries come from py_blocks"""
     ops = []          # harness tokens
     nupd = 0
+    nres = 0
     dv = rng.choice([0, 1, 5, 255, M64])
+    lens = [L, L]     # current length of array 0 / its copy
+    tgt = [0]
+
+    def boundary():
+        n = lens[tgt[0]]
+        st, sz = py_blocks(n, R)
+        return sorted({i for s_, z in zip(st, sz) if z > 0 for i in (s_, s_ + z - 1)} | ({0, n - 1} if n else set()))
 
     def upd(op, r, i, x=None):
         nonlocal nupd
         nupd += 1
         ops.append(f"{op} {r} {i}" + ("" if x is None else f" {x}"))
 
-    def phase(target_len):
-        if L == 0:
+    def phase(every_owner=False):
+        n_el = lens[tgt[0]]
+        if n_el == 0:
             return
+        bd = boundary()
         fam = {}
         n = rng.randrange(1, 4) * max(R, 2) + rng.randrange(0, 4)
-        ranks = list(range(R)) * (n // R + 1)
+        ranks = list(range(R)) * (n // R + 2)
         rng.shuffle(ranks)
         single_used = set()
-        for k in range(n):
-            i = rng.choice(boundary) if rng.random() < 0.6 else rng.randrange(L)
+        targets = [rng.choice(bd) if rng.random() < 0.6 else rng.randrange(n_el) for _ in range(n)]
+        if every_owner:      # right after a resize: something for every block, from a different rank, first thing
+            st, sz = py_blocks(n_el, R)
+            first = [s_ + rng.randrange(z) for s_, z in zip(st, sz) if z > 0]
+            targets = first + targets
+            ranks = [(k + 1 + rng.randrange(max(R - 1, 1))) % R for k in range(len(first))] + ranks
+        for k, i in enumerate(targets):
             if i not in fam:
                 fam[i] = rng.choice(list(FAMILIES) + ["single"])
             if fam[i] == "single":
@@ -105,13 +129,28 @@ def gen_case(rng, R, L, blocks, kind):
                 op = rng.choice(FAMILIES[fam[i]])
             upd(op, ranks[k], i, None if op in "+-" else rand_val(rng))
 
+    def resize():
+        nonlocal nres
+        old = lens[tgt[0]]
+        cands = [old + 1, old + R + 1, max(old - 1, 0), max(R - 1, 1), R, 2 * R + 1, rng.randrange(0, 3 * R + 3), rng.randrange(1, 41)]
+        cands = [c for c in cands if c % R != old % R] or cands        # prefer a different remainder
+        new = rng.choice(cands)
+        ops.append(f"Z {new}" + (f" {rand_val(rng)}" if rng.random() < 0.7 else ""))
+        lens[tgt[0]] = new
+        nres += 1
+        phase(every_owner=True)      # updates right away: no barrier after resize()
+
     if kind == "seq":      # one rank: execution order = issue order, anything goes
         n = rng.randrange(4, 30)
         for _ in range(n):
-            if L == 0:
-                break
+            if rng.random() < 0.08:
+                new = rng.randrange(0, 12)
+                ops.append(f"Z {new}" + (f" {rand_val(rng)}" if rng.random() < 0.5 else "")); lens[0] = new; nres += 1
+            if lens[0] == 0:
+                continue
             op = rng.choice(ALLOPS)
-            i = rng.choice(boundary) if rng.random() < 0.5 else rng.randrange(L)
+            bd = boundary()
+            i = rng.choice(bd) if rng.random() < 0.5 else rng.randrange(lens[0])
             x = None if op in "+-" else (rng.randrange(1, 9) if op == "d" else rand_val(rng))
             upd(op, 0, i, x)
             if rng.random() < 0.15:
@@ -119,23 +158,40 @@ def gen_case(rng, R, L, blocks, kind):
             if rng.random() < 0.1:
                 ops.append("F")
         ops += ["B", "F", "V"]
+    elif kind == "resize":  # explicit resizes, each followed immediately by updates from all ranks
+        ops.append("F")
+        phase()
+        ops.append("F")
+        for _ in range(rng.randrange(3, 7)):
+            resize()
+            ops.append("F")
     else:
         ops.append("F")                     # fresh array: default everywhere
         for _ in range(rng.randrange(1, 4)):
-            phase(L)
+            if rng.random() < 0.25:
+                resize()
+            else:
+                phase()
             ops += (["B"] if rng.random() < 0.5 else []) + ["F"]     # for_all starts with its own barrier
             if rng.random() < 0.3:
                 ops.append("V")
         if kind == "copy":
             ops += ["C", "T 1", "F"]
-            phase(L)
+            lens[1] = lens[0]; tgt[0] = 1
+            if rng.random() < 0.4:
+                resize()
+            else:
+                phase()
             ops += ["F", "T 0", "F"]
-            phase(L)
+            tgt[0] = 0
+            phase()
             ops += ["F", "T 1", "F", "T 0"]
     nodes, ppn = rng.choice(layouts(R))
     return {"ranks": R, "len": L, "dv": dv, "script": ";".join(ops), "nodes": nodes, "ppn": ppn,
-            "routing": rng.choice(ROUTES), "buffer_kb": rng.choice([0, 0, 1, None]), "sim_seed": rng.randrange(1, 1 << 30),
-            "policy": rng.choice(POLICIES), "kind": kind, "updates": nupd}
+            "routing": rng.choice(ROUTES), "buffer_kb": (rng.choice([0, 0, 0, None]) if kind == "resize" else rng.choice([0, 0, 1, None])),
+            "sim_seed": rng.randrange(1, 1 << 30),
+            "policy": (rng.choice(["racer", "late", "burst", "uniform", "starve"]) if kind == "resize" else rng.choice(POLICIES)),
+            "kind": kind, "updates": nupd, "resizes": nres}
 
 
 def run_real(binary, case, sim_seed=None, policy=None):
@@ -156,30 +212,52 @@ def model_line(case):
             toks.append(f[0])
         elif f[0] == "T":
             toks.append("T:" + f[1])
+        elif f[0] == "Z":
+            toks.append(":".join(f))
         else:
             toks.append(":".join([f[0]] + f[2:]))     # the issuing rank is irrelevant to the model
     return f"{case['len']} {case['ranks']} {case['dv']} | " + " ".join(toks)
 
 
 def oracle_expected(case):
-    """sequential reading of the script in Python: list of dumps; a dump = (kind, {index: value})"""
-    L = case["len"]
-    arrs = [[case["dv"]] * L, None]
+    """sequential reading of the script in Python: list of dumps (kind, values by global index).
+    An array is kept as the ranks' local vectors because resize(size, fill) keeps every rank's LOCAL prefix
+    (std::vector::resize) under the new block partition."""
+    R = case["ranks"]
+
+    def fresh(L, v):
+        return [[v] * z for z in py_blocks(L, R)[1]]
+
+    def flat(a):
+        return [x for v in a for x in v]
+
+    def locate(a, i):
+        for r, v in enumerate(a):
+            if i < len(v):
+                return r, i
+            i -= len(v)
+        raise IndexError(i)
+
+    arrs = [fresh(case["len"], case["dv"]), None]
     cur, dumps = 0, []
     for op in case["script"].split(";"):
         f = op.split()
         if f[0] == "B":
             continue
         if f[0] == "C":
-            arrs[1] = list(arrs[0])
+            arrs[1] = [list(v) for v in arrs[0]]
         elif f[0] == "T":
             cur = int(f[1])
+        elif f[0] == "Z":
+            n = int(f[1]); fill = int(f[2]) if len(f) > 2 else case["dv"]
+            arrs[cur] = [(v[:z] + [fill] * max(0, z - len(v))) for v, z in zip(arrs[cur], py_blocks(n, R)[1])]
         elif f[0] in ("F", "V"):
-            dumps.append((f[0], list(arrs[cur])))
+            dumps.append((f[0], flat(arrs[cur])))
         else:
             i = int(f[2])
             x = int(f[3]) if len(f) > 3 else 0
-            arrs[cur][i] = py_eval(f[0], i, arrs[cur][i], x)
+            r, l = locate(arrs[cur], i)
+            arrs[cur][r][l] = py_eval(f[0], i, arrs[cur][r][l], x)
     return dumps
 
 
@@ -192,6 +270,8 @@ def evaluate(case, sr, model_out):
         sig = "array-run-failed " + sr.verdict.split(":")[0]
         if "signal 8" in sr.verdict:
             sig = "array-owner-trap len<ranks" if 0 < L < R else "array-owner-trap"
+        elif "signal 6" in sr.verdict and "array.ipp" in sr.stderr:
+            sig = "array-assert-abort"       # an ASSERT_RELEASE of array.ipp fired (index applied under the wrong layout)
         of.append({"what": f"real array run failed: {sr.verdict}", "signature": sig,
                    "case": dict(cid, verdict=sr.verdict, stderr=sr.stderr[-400:], blocked=sr.blocked)})
         return of, cf
@@ -212,7 +292,7 @@ def evaluate(case, sr, model_out):
                     a, b = t.split(":")
                     seen.append((int(a), int(b), r))
             idx = sorted(i for i, _, _ in seen)
-            if idx != list(range(L)):
+            if idx != list(range(len(vals))):
                 of.append({"what": f"for_all #{d}: indices over all ranks are not 0..len-1 exactly once", "signature": "array-forall-cover", "case": dict(cid, dump=d, seen=idx)})
                 continue
             bad = [(i, v, vals[i]) for i, v, _ in seen if v != vals[i]]
@@ -256,7 +336,7 @@ def run(tier, seed, model_ok=True):
         for k in range(per_size):
             L = fixed[k] if k < len(fixed) else rng.choice([rng.randrange(0, R + 1), rng.randrange(R, 41), rng.randrange(1, 41)])
             L = max(L, 0)
-            kind = "seq" if R == 1 and k % 2 == 0 else ("copy" if k % 5 == 4 else "phases")
+            kind = "seq" if R == 1 and k % 2 == 0 else ("copy" if k % 5 == 4 else ("resize" if k % 3 == 1 else "phases"))
             plan.append((R, L, kind))
     # block boundaries from the proved partition model
     tabs = {}
@@ -292,6 +372,7 @@ def run(tier, seed, model_ok=True):
         res.count("routing=" + case["routing"])
         res.count("buffer_kb=" + str(case["buffer_kb"]))
         res.count("updates", case["updates"])
+        res.count("resizes", case.get("resizes", 0))
         if sr.verdict == "ok":
             res.traces_validated += 1
         if case["ranks"] == 4 and case["len"] in (3, 5, 7) and case["updates"]:
